@@ -49,9 +49,17 @@ func ServeOps() {
 		line, err := in.ReadString('\n')
 		line = strings.TrimSpace(line)
 		if line != "" {
+			// "#<id> <request>": the answer carries the same tag, so that the parent can tell the answer to THIS
+			// request from a late answer to an earlier one it gave up on
+			tag := ""
+			if strings.HasPrefix(line, "#") {
+				if i := strings.IndexByte(line, ' '); i > 0 {
+					tag, line = line[:i+1], strings.TrimSpace(line[i+1:])
+				}
+			}
 			ans := RunOp(line)
 			ans = strings.ReplaceAll(ans, "\n", " ")
-			fmt.Fprintln(out, ans)
+			fmt.Fprintln(out, tag+ans)
 			out.Flush()
 		}
 		if err != nil {
@@ -89,6 +97,8 @@ type Child struct {
 	lines chan string // answers; closed when the child's stdout ends
 	errb  *tailBuf
 	Dead  bool
+	seq   int // request ids
+	Stale int // answers to requests that had been given up on, read and discarded
 }
 
 // StartChild starts bin as an op server.  env entries ("K=V") are added to the parent's environment.
@@ -130,19 +140,27 @@ func (c *Child) Ask(req string, d time.Duration) (ans string, status string) {
 	if c.Dead {
 		return "", "crash"
 	}
-	if _, err := io.WriteString(c.in, req+"\n"); err != nil {
+	c.seq++
+	tag := fmt.Sprintf("#%d ", c.seq)
+	if _, err := io.WriteString(c.in, tag+req+"\n"); err != nil {
 		c.reap()
 		return "", "crash"
 	}
-	select {
-	case l, ok := <-c.lines:
-		if !ok {
-			c.reap()
-			return "", "crash"
+	deadline := time.After(d)
+	for {
+		select {
+		case l, ok := <-c.lines:
+			if !ok {
+				c.reap()
+				return "", "crash"
+			}
+			if strings.HasPrefix(l, tag) {
+				return l[len(tag):], "ok"
+			}
+			c.Stale++ // the answer to an earlier request that was given up on: not this one's
+		case <-deadline:
+			return "", "hang"
 		}
-		return l, "ok"
-	case <-time.After(d):
-		return "", "hang"
 	}
 }
 
